@@ -420,7 +420,7 @@ func (ee *explainer) explainSeqMappings(mm []mapping) {
 		}
 
 		if rangeLen > 2 {
-			fmt.Fprintf(ee.w, "%s-%s -> %s-%s",
+			fmt.Fprintf(ee.w, "%s - %s -> %s - %s",
 				ee.names[mm[0].from[0]],
 				ee.names[mm[rangeLen-1].from[0]],
 				ee.names[mm[0].to[0]],
